@@ -77,7 +77,11 @@ def genC16Cases (tier : String) (seed : Nat) : Array Case := Id.run do
     let a := Json.mkObj [("text", (String.ofList (renderS s) : Json))]
     let c : Case := { id := s!"c16-{i}", op := "parse", args := a, exp := Json.str (showNode (denoteLinked s)),
                       tag := if i % 3 = 0 then "with-nested-properties" else "simple-properties",
-                      note := Json.mkObj [("kf", (kfC16 s : Json))] }
+                      note := (let e := denoteLinked s
+                        Json.mkObj [("kf", (kfC16 s : Json)), ("kfkind", ("retained-shared" : Json)),
+                          ("privSig", ("\n".intercalate (privSigOf e) : Json)),
+                          ("leaves", Json.arr ((leafTextsOf e).map Json.str).toArray),
+                          ("privTexts", Json.arr ((privTextsOf e).map Json.str).toArray)]) }
     out := out.push c
   pure out
 
